@@ -27,6 +27,8 @@ func main() {
 		cmdMine(os.Args[2:])
 	case "c03fps":
 		cmdC03Fps(os.Args[2:])
+	case "c03try":
+		cmdC03Try(os.Args[2:])
 	case "tablecheck":
 		cmdTableCheck(os.Args[2:])
 	default:
